@@ -8,6 +8,7 @@ From CV Require Import Packed.ReadCallProofs.
 From CV Require Import Packed.ReadCallProofs2.
 From CV Require Import Packed.ReadFull.
 From CV Require Import Packed.ReadFullProofs.
+From CV Require Import Packed.StreamRoundTrip.
 Open Scope Z_scope.
 
 (* every word-aligned byte string: the packed form decodes back to it, both with the
@@ -54,12 +55,22 @@ Print Assumptions C13_read_agrees.
 (* growth: at most 1024 output bytes per input byte (tag 0 + count 255 = 2 bytes -> 2048) *)
 Theorem C13_growth : forall src out, bytes_ok src ->
   unpack src = Some out -> (length out <= 1024 * length src)%nat.
-Proof. intros src out Hb H. exact (unpack_growth true (length src) src out (le_n _) Hb H). Qed.
+Proof. exact growth_le. Qed.
 Print Assumptions C13_growth.
 
 (* non-vacuity: the bound is reached *)
 Example C13_growth_tight : unpack [0; 255] = Some (repeat 0 2048).
-Proof. vm_compute. reflexivity. Qed.
+Proof. exact growth_tight. Qed.
+Print Assumptions C13_growth_tight.
+
+(* the round trip through the streaming reader as one statement: for every word-aligned byte
+   string, its packed form exists and Reader.Read gives the string back, then EOF, for all request
+   sizes and oracles *)
+Theorem C13_stream_roundtrip : forall bs orc sizes fuel, bytes_ok bs -> (length bs mod 8 = 0)%nat ->
+  exists p, pack_bytes bs = Some p /\
+   ((2304 * length p + 1 <= fuel)%nat -> read_calls true fuel orc 0 b_init p sizes 0 = Some (bs, EOF)).
+Proof. exact stream_roundtrip. Qed.
+Print Assumptions C13_stream_roundtrip.
 
 (* ---- round 2: Reader.Read on streams the one-shot decoder rejects ---- *)
 
